@@ -88,8 +88,9 @@ NOINL void world_final(uint32_t all_done, uint32_t stuck)
         CHECK(sent == NPROD * KSEND && received == NRECV, "everybody finished its operations");
         WITNESS("all sends and receives completed");
     }
+#ifndef PREFILL
     if (asleep_on(CONSUMER, &C.v.queue_sem)) WITNESS("the run can end with the consumer parked on the semaphore");
-#ifdef PREFILL
+#else
     if (asleep_on(0, &C.v.send_sem)) WITNESS("the run can end with a producer parked on the send semaphore");
 #endif
 }
